@@ -219,7 +219,7 @@ pub fn make_doc(profile: Profile, id: &str, ver: u64) -> Document {
     // beyond 64 KiB)
     let extra = if ver % 97 == 0 {
       // (rarely: a giant document, well over 1 MiB)
-      230_000
+      300_000
     } else {
       (300 + (nextr() % 6) as usize * 400) * if ver % 3 == 0 { 12 } else { 1 }
     };
@@ -716,7 +716,12 @@ pub fn gen_ops(rng: &mut Rng, cfg: &Cfg, p: &GenParams) -> Vec<Op> {
         let mut ver = next_ver;
         next_ver += 1;
         if p.big_every > 0 && rng.chance(1, p.big_every as u64) {
-          ver += BIG_VERSIONS;
+          if rng.chance(1, 30) {
+            // a giant document (over 1 MiB): versions = 70 mod 97 in the long range
+            ver = BIG_VERSIONS + 70 + 97 * ver;
+          } else {
+            ver += BIG_VERSIONS;
+          }
         }
         let wrap = p.savepoints && !p.overlap && rng.chance(1, 6);
         if wrap {
